@@ -60,6 +60,13 @@ func (s *Sink) Weighted(xs ...int64) int64 {
 	return t
 }
 func (s *Sink) Cat(parts ...string) string { return strings.Join(parts, "") }
+func (s *Sink) Lead(a int64, rest ...int64) int64 {
+	t := 10 * a
+	for _, r := range rest {
+		t += r
+	}
+	return t
+}
 func (s *Sink) Mixed(a int64, str string, b bool) int64 {
 	r := a*100 + int64(len(str))*10
 	if b {
@@ -277,7 +284,7 @@ func builtinText(c *exprCase, key int64, style int) string {
 	switch c.Fn {
 	case "Abs", "Floor", "Ceil", "Round", "Max", "Min":
 		return c.Fn + "(" + list + ")"
-	case "Sub2", "Weighted", "Cat", "Mixed":
+	case "Sub2", "Weighted", "Cat", "Mixed", "Lead":
 		return "S." + c.Fn + "(" + list + ")"
 	}
 	recv := strconv.Quote(cpString(c.Recv))
